@@ -1705,13 +1705,20 @@ class Segment(Element):
             self._last_allowed_child_index = int(last_field_structure['name'][4:])
             self._last_child_index = self._last_allowed_child_index
 
-    def add(self, obj):
-        super(Segment, self).add(obj)
-        # updates the index of the last children not allowed
-        if obj.name and self.allow_infinite_children:
-            field_index = int(obj.name[4:])
-            if field_index > self._last_child_index:
-                self._last_child_index = field_index
+    def _get_last_child_index(self):
+        """
+        The highest index among the fields the segment holds beyond the last one of its structure. It is
+        computed from the children: a field that has been removed, refused or merely read does not count
+        """
+        last = self._last_allowed_child_index
+        prefix = '{}_'.format(self.name)
+        for name, repetitions in self.children.indexes.items():
+            if repetitions and name is not None and name.startswith(prefix):
+                try:
+                    last = max(last, int(name[len(prefix):]))
+                except ValueError:
+                    pass
+        return last
 
     def add_field(self, name):
         """
@@ -1835,7 +1842,7 @@ class Segment(Element):
     def _get_children(self, trailing=False):
         children = self.children.get_ordered_children()
         if self.allow_infinite_children:
-            for i in xrange(self._last_allowed_child_index + 1, self._last_child_index + 1):
+            for i in xrange(self._last_allowed_child_index + 1, self._get_last_child_index() + 1):
                 children.append(self.children.indexes.get('{}_{}'.format(self.name, i), None))
         children.extend([c for c in self.children.get_children() if c[0].name in (None, 'ST')])
         if not trailing:
